@@ -1252,6 +1252,7 @@ package engine
 
 //@ func PeekChar
 //@   property C19
+//@   requires[stream-terms-and-aliases-name-streams-that-exist] streamsValid(vm, env, streamOrAlias)
 //@   requires vm != nil
 //@   nosafety
 //@   bind s, serr = stream#1
@@ -1263,6 +1264,7 @@ package engine
 
 //@ func PeekByte
 //@   property C19
+//@   requires[stream-terms-and-aliases-name-streams-that-exist] streamsValid(vm, env, streamOrAlias)
 //@   requires vm != nil
 //@   nosafety
 //@   bind s, serr = stream#1
@@ -1276,6 +1278,7 @@ package engine
 //@ -- no ensures, no modifies (the heap is havocked at its call sites, as for any unknown callee)
 //@ func ReadTerm
 //@   property C19
+//@   requires[stream-terms-and-aliases-name-streams-that-exist] streamsValid(vm, env, streamOrAlias)
 //@   requires vm != nil
 //@   nosafety
 //@   bind s, serr = stream#1
@@ -1289,6 +1292,7 @@ package engine
 
 //@ func GetChar
 //@   property C19
+//@   requires[stream-terms-and-aliases-name-streams-that-exist] streamsValid(vm, env, streamOrAlias)
 //@   requires vm != nil
 //@   nosafety
 //@   bind s, serr = stream#1
@@ -1300,6 +1304,7 @@ package engine
 
 //@ func GetByte
 //@   property C19
+//@   requires[stream-terms-and-aliases-name-streams-that-exist] streamsValid(vm, env, streamOrAlias)
 //@   requires vm != nil
 //@   nosafety
 //@   bind s, serr = stream#1
